@@ -8,6 +8,7 @@ from vmon import oracle as orc
 from vmon.checks.common import obs, fail, random_prefix, apply_prefix
 
 SPLIT_WAITS = "seq"   # worker: every fifth case is built from relative messages with rests split into adjacent waits
+SCALE = True   # worker: every fortieth case (or SCALE_EVERY-th) is blown up by scale_case below
 PROP = "C10"
 MONITORS = ["bar_inv"]
 INSITU = {"k": "bar or track or composition or tokenisation or scale"}
@@ -25,6 +26,30 @@ FLOORS = {"quick": {"bar_inv.duration.armed": 4000, "c10.rejected_overlong": 500
           "thorough": {"bar_inv.duration.armed": 100000, "c10.rejected_overlong": 10000}}
 DENS = [1, 2, 4, 8, 16]
 
+
+def scale_case(case, i):
+    """a bar holding several hundred messages (very short notes on eight keys), with the usual signature situations"""
+    import random
+    r = random.Random(f"c10-dense:{i}")
+    cap = 96 * case["num"] // case["den"]
+    if cap < 40 or case.get("soup") or case.get("motif"):
+        return
+    target = {"short": cap - r.randint(1, 6), "exact": cap, "plus1": cap + 1, "long": cap + r.randint(2, 50)}.get(case["length"], cap - 2)
+    notes = []
+    for c in (0, 1):
+        for p in (60, 62, 64, 65):
+            t = r.randrange(0, 3)
+            while t + 2 <= target:
+                ln = r.choice([1, 1, 2])
+                notes.append([c, p, t, ln, 1 + len(notes) % 127])
+                t += ln + r.choice([0, 1, 1, 2])
+    sp = case["seq"]
+    sp["notes"] = notes
+    sp.pop("hanging", None)
+    sp["extra"] = [e for e in sp["extra"] if e[1] <= target]
+    if target > gen.end_of(sp):
+        sp["pad"] = target
+    case["prefix"] = []
 
 def make_case(rng, i, tier):
     num, den = rng.randint(1, 16), rng.choice(DENS)
